@@ -21,7 +21,7 @@ import impl
 from common import driver_batch
 
 ID = 'C07'
-EXTRA_MODULES = ['Mistletoe.Proofs.DefOrder']
+EXTRA_MODULES = ['Mistletoe.Proofs.DefOrder', 'Mistletoe.Proofs.RefResolve', 'propsdriver']
 RULE = ('generated documents: blocks (paragraphs, ATX and setext headings, table cells, quotes, list items nested to depth 3) '
         'carrying uniquely tagged reference uses in full / collapsed / shortcut form for links and images; definitions '
         'placed before or after their uses at top level or inside quotes and list items, with duplicate and near-'
@@ -33,8 +33,12 @@ ASSUMPTIONS = ['definitions are placed at block boundaries (a definition cannot 
 PARTIAL = ['proved over the whole-document model: one table for all inline content (C07_two_phase), built from the definition '
            'entries of the parse buffer in document (pre-)order at every nesting depth (C07_table_is_document_order, '
            'C07_first_in_document_order, C07_position_independent), first definition wins, unresolved labels resolve to '
-           'nothing; that a reference in the TEXT reaches `resolve` with its label and stays literal when it resolves to '
-           'nothing is the inline parser (match_link_image), tied by the inline/doc units and explored over all placements']
+           'nothing; that a reference in the TEXT reaches the lookup is proved for shortcut, collapsed and full references (links and '
+           'images) written in otherwise plain text: the inline parser calls the lookup with normalize_label(label), yields ONE token '
+           'carrying the looked-up destination and title, and no token at all when the lookup fails (Props/C07_Resolve.lean; the '
+           'document-level corollary takes the block phase\'s reading of the definition line as an evaluated assumption and is '
+           're-checked on the real code each run: c07.resolve); references next to other inline constructs, inside emphasis or '
+           'nested brackets are tied by the inline/doc units and explored over all placements']
 
 FAMILIES = [['foo', 'Foo', 'FOO', 'fOo'], ['bar baz', 'Bar  Baz', 'BAR\tBAZ', 'bar baz'], ['ß', 'ẞ', 'SS', 'ss', 'Ss'],
             ['ΑΓΩ', 'αγω', 'Αγω'], ['x1', 'X1'], ['toto', 'ToTo'], ['é', 'É'], ['a.b-c', 'A.B-C']]
@@ -245,6 +249,42 @@ def units(ctx):
         if 'buffer' not in res:
             continue
         ctx.compare('c07.order', {'text': c['text'], 'renderer': rname}, defs_of_buffer(res['buffer']), res['defs'], kind=rname)
+    resolve_unit(ctx)
+
+
+RES_WORDS = ['see', 'the', 'ref', 'here', 'Now', 'end.', 'a,b', 'x:', '(note)', 'é', '中', 'q?', '1986', 'AT', '#1', 'v=1', 'a|b', '+x', 'at: y', '$']
+RES_LABELS = [fam for fam in FAMILIES + UNDEFINED] + [['two words', 'Two  Words', 'TWO WORDS'], ['straße', 'STRASSE', 'Straße'], ['x.y', 'X.Y'],
+                                                    ['ﬁn', 'FIN', 'fin'], ['σας', 'ΣΑΣ', 'σασ']]
+
+
+def resolve_unit(ctx):
+    """`C07_shortcut_document_text_partial` on the real code: `[defLbl]: dest`, blank line, `pre[lbl]post` renders a link to
+    dest exactly when the two labels are equal after normalisation, and the literal text otherwise"""
+    rng = ctx.rng('resolve')
+    reqs = []
+    for _ in range(ctx.budget(1200, 12000)):
+        fam = rng.choice(RES_LABELS)
+        d = rng.choice(fam)
+        l = rng.choice(fam) if rng.random() < 0.7 else rng.choice(rng.choice(RES_LABELS))
+        pre = ' '.join(rng.choice(RES_WORDS) for _ in range(rng.randint(0, 3)))
+        post = ' '.join(rng.choice(RES_WORDS) for _ in range(rng.randint(0, 3)))
+        pre = pre + rng.choice([' ', ' ', '']) if pre else ''
+        post = rng.choice([' ', ' ', '', '.']) + post if post else rng.choice(['', '.', ':'])
+        reqs.append({'op': 'c07.resolve', 'defLbl': d, 'dest': rng.choice(['/url', 'a/b.c', 'x', '/U/1.html']), 'pre': pre, 'lbl': l, 'post': post})
+    res = driver_batch(reqs, binary=common.PROPS_DRIVER)
+    n_ok = n_link = 0
+    for q, r in zip(reqs, res):
+        if not (isinstance(r, dict) and r.get('ok')):
+            continue
+        n_ok += 1
+        n_link += '<a href' in r['html']
+        try:
+            real = impl.parse_render('HtmlRenderer', {}, r['text'])[1]
+        except Exception as e:
+            real = {'raises': type(e).__name__}
+        ctx.compare('c07.resolve', {'text': r['text']}, r['html'], real, kind='resolved' if '<a href' in r['html'] else 'literal')
+    ctx.notes.append('of %d generated definition + reference documents %d satisfy the hypotheses of C07_shortcut_document_text_partial '
+                     '(%d resolve to the definition, the others stay literal)' % (len(reqs), n_ok, n_link))
 
 
 def defs_of_buffer(buf):
